@@ -939,3 +939,210 @@ Proof.
   exists (ty_value t), p'. split; [exact E|]. unfold b_type. apply ty_rebuilt; assumption.
 Qed.
 
+
+(* ====================== arguments and argument lists (without default values) ====================== *)
+Definition ARG_BODY : gexpr :=
+  GAnd [GAnd [GName "ctype" TY; GName "name" IDENT]; GName "default" (GOpt (GAnd [GSup (GTerm (TLit "=")); GTerm TDefault]))].
+Lemma lookup_Argument : lookup g "Argument" = Some ARG_BODY. Proof. reflexivity. Qed.
+
+Definition rparen : chars := [")"%char].
+(* what follows an argument: "," or ")" *)
+Definition after_arg (r : chars) : Prop := exists X, r = sp comma_tok X \/ r = sp rparen X.
+
+Lemma ident_first_alpha : forall n, is_ident n = true -> exists c w, n = c :: w /\ in_str alpha_ c = true.
+Proof. intros [|c w] H; [discriminate|]. cbn [is_ident] in H. apply andb_true_iff in H. exists c, w. tauto. Qed.
+
+Lemma alpha_not_special : forall c, in_str alpha_ c = true -> cmem c (chars_of "*@&:<") = false.
+Proof.
+  intros c H. unfold in_str, cmem in H. apply existsb_exists in H. destruct H as [z [Hz E]].
+  apply ceq_eq in E. subst z. revert Hz. vm_compute. intuition (subst; reflexivity).
+Qed.
+
+Lemma follow_ident : forall n r, is_ident n = true -> follow (sp n r).
+Proof.
+  intros n r H. destruct (ident_first_alpha n H) as [c [w [E Hc]]]. subst n. right. exists c, (w ++ r).
+  split; [reflexivity|]. split; [apply alnum_solid, alpha_alnum; exact Hc | apply alpha_not_special; exact Hc].
+Qed.
+
+Lemma after_arg_boundary : forall r, after_arg r -> boundary r.
+Proof. intros r [X [E|E]]; subst; right; eexists; reflexivity. Qed.
+
+Lemma eq_fails_after_arg : forall f p r, after_arg r ->
+  interp g (S f) (GTerm (TLit "=")) {| pk := p; rest := r |} = Fail.
+Proof. intros f p r [X [E|E]]; subst r; [apply (lit1_other f p "="%char ","%char [] X) | apply (lit1_other f p "="%char ")"%char [] X)]; reflexivity. Qed.
+
+Definition arg_value (v : value) (n : chars) : value :=
+  VNode "Argument" [(["ctype"%string], v); (["name"%string], VStr (string_of n))].
+
+Lemma arg_ok : forall F0 toks v n, parses F0 toks v -> is_ident n = true ->
+  forall f p r, after_arg r -> F0 <= f ->
+  exists p', interp g (5 + f) (GRef "Argument") {| pk := p; rest := render (toks ++ [n]) r |}
+             = Match [([], arg_value v n)] {| pk := p'; rest := r |}.
+Proof.
+  intros F0 toks v n Hp Hn f p r Hr Hf. cbn [Nat.add].
+  rewrite (i_ref _ _ "Argument" ARG_BODY lookup_Argument). unfold ARG_BODY. rewrite i_and, seq_cons, i_and, seq_cons, i_name.
+  rewrite render_app. change (render [n] r) with (sp n r).
+  destruct (Hp (S f) p (sp n r) (follow_ident n r Hn) ltac:(lia)) as [p1 E1]. rewrite E1. cbn [map add_name fst snd app].
+  rewrite seq_cons, i_name.
+  destruct f as [|f]; [| ].
+  { (* F0 = 0 cannot parse: at fuel 0 the interpreter has no answer *)
+    destruct (Hp 0 p (sp n r) (follow_ident n r Hn) (Nat.le_trans _ _ _ Hf (Nat.le_refl 0))) as [p0 E0]. discriminate. }
+  destruct (IDENT_ok f p1 n r Hn (after_arg_boundary r Hr)) as [p2 E2]. rewrite E2. cbn [map add_name fst snd]. rewrite seq_nil. cbn [app].
+  rewrite seq_cons, i_name, i_opt, i_and, seq_cons, i_sup.
+  destruct f as [|f].
+  { destruct (Hp 1 p (sp n r) (follow_ident n r Hn) ltac:(lia)) as [p0 E0]. unfold TY in E0. rewrite i_or in E0. cbn [alt_longest] in E0.
+    discriminate. }
+  rewrite (eq_fails_after_arg f p2 r Hr), seq_nil. unfold arg_value. eexists. reflexivity.
+Qed.
+
+(* ---- argument lists ---- *)
+Definition arg_parses (F0 : nat) (atoks : list chars) (av : value) : Prop :=
+  forall f p r, after_arg r -> F0 <= f ->
+    exists p', interp g f (GRef "Argument") {| pk := p; rest := render atoks r |} = Match [([], av)] {| pk := p'; rest := r |}.
+
+Lemma arg_parses_of : forall F0 toks v n, parses F0 toks v -> is_ident n = true -> arg_parses (5 + F0) (toks ++ [n]) (arg_value v n).
+Proof.
+  intros F0 toks v n Hp Hn f p r Hr Hf. assert (X : exists f', f = 5 + f' /\ F0 <= f') by (exists (f - 5); lia).
+  destruct X as [f' [E Hf']]. subst f. apply (arg_ok F0 toks v n Hp Hn f' p r Hr Hf').
+Qed.
+
+Definition COMMA_ARG : gexpr := GAnd [GSup (GTerm (TLit ",")); GRef "Argument"].
+Definition ARGS_BODY : gexpr := GOpt (GName "args_list" (GAnd [GRef "Argument"; GStar COMMA_ARG])).
+Lemma lookup_ArgumentList : lookup g "ArgumentList" = Some ARGS_BODY. Proof. reflexivity. Qed.
+
+Definition more_args (l : list (list chars)) : list chars := flat_map (fun t => comma_tok :: t) l.
+Lemma after_arg_more : forall l X, after_arg (render (more_args l) (sp rparen X)).
+Proof. intros [|t l] X; [exists X; right; reflexivity | eexists; left; reflexivity]. Qed.
+
+Lemma args_tail_ok : forall l vs F0, Forall2 (arg_parses F0) l vs ->
+  forall f k acc p X, F0 <= f -> length l <= k ->
+  exists p', star (interp g (S (S (S f)))) (S k) COMMA_ARG acc {| pk := p; rest := render (more_args l) (sp rparen X) |}
+             = Match (acc ++ param_items vs) {| pk := p'; rest := sp rparen X |}.
+Proof.
+  intros l vs F0 H. induction H as [|t v l vs Ht Hl IH]; intros f k acc p X Hf Hk.
+  - cbn [more_args flat_map render fold_right]. rewrite star_S. unfold COMMA_ARG. rewrite i_and, seq_cons, i_sup.
+    unfold rparen. rewrite (lit1_other _ p ","%char ")"%char [] X eq_refl eq_refl).
+    cbn [param_items map]. rewrite app_nil_r. eexists. reflexivity.
+  - cbn [length] in Hk. destruct k as [|k]; [lia|].
+    change (more_args (t :: l)) with ((comma_tok :: t) ++ more_args l). rewrite render_app.
+    change (render (comma_tok :: t) ?x) with (sp comma_tok (render t x)).
+    rewrite star_S. unfold COMMA_ARG at 1. rewrite i_and, seq_cons, i_sup.
+    destruct (lit1_at f p ","%char (render t (render (more_args l) (sp rparen X))) eq_refl) as [p1 E1].
+    change (sp [","%char] ?x) with (sp comma_tok x) in E1. rewrite E1. cbn [app]. rewrite seq_cons.
+    destruct (Ht (S (S f)) p1 _ (after_arg_more l X) ltac:(lia)) as [p2 E2]. rewrite E2, seq_nil. cbn [app].
+    destruct (IH f k (acc ++ [([], v)]) p2 X Hf ltac:(lia)) as [p3 E3]. fold COMMA_ARG. rewrite E3.
+    cbn [param_items map]. rewrite <- app_assoc. eexists. reflexivity.
+Qed.
+
+Definition sep_args (l : list (list chars)) : list chars :=
+  match l with [] => [] | t :: r => t ++ more_args r end.
+Definition args_value (vs : list value) : value :=
+  VNode "ArgumentList" (map (add_name "args_list") (param_items vs)).
+
+Lemma args_nonempty_ok : forall t l v vs F0, arg_parses F0 t v -> Forall2 (arg_parses F0) l vs ->
+  forall f p X, F0 <= f -> length l <= f ->
+  exists p', interp g (8 + f) (GRef "ArgumentList") {| pk := p; rest := render (sep_args (t :: l)) (sp rparen X) |}
+             = Match [([], args_value (v :: vs))] {| pk := p'; rest := sp rparen X |}.
+Proof.
+  intros t l v vs F0 Ht Hl f p X Hf Hn. cbn [Nat.add].
+  rewrite (i_ref _ _ "ArgumentList" ARGS_BODY lookup_ArgumentList). unfold ARGS_BODY. rewrite i_opt, i_name, i_and, seq_cons.
+  cbn [sep_args]. rewrite render_app.
+  destruct (Ht (S (S (S (S f)))) p _ (after_arg_more l X) ltac:(lia)) as [p1 E1]. rewrite E1. cbn [app]. rewrite seq_cons, i_star.
+  destruct (args_tail_ok l vs F0 Hl f (S (S f)) [] p1 X Hf ltac:(lia)) as [p2 E2]. rewrite E2, seq_nil. cbn [app].
+  unfold args_value. cbn [param_items map]. eexists. reflexivity.
+Qed.
+
+(* ---- the empty list: Type ^ TemplatedType does not start at ")" ---- *)
+Lemma kw_fail_first : forall f p (k : string) c t r, solid c = true ->
+  match chars_of k with d :: _ => ceq d c = false | [] => False end ->
+  interp g (S f) (GTerm (TKw k)) {| pk := p; rest := sp (c :: t) r |} = Fail.
+Proof.
+  intros f p k c t r Hs Hd. rewrite i_term. unfold run_term. cbn [pre_term]. rewrite (pre_sp p c t r Hs). cbn [rest app].
+  destruct (chars_of k) as [|d k']; [contradiction|]. cbn [prefix]. rewrite Hd. reflexivity.
+Qed.
+
+Lemma ident_fails_at_rparen : forall f p X, interp g (S (S f)) IDENT {| pk := p; rest := sp rparen X |} = Fail.
+Proof. intros f p X. apply (IDENT_fail f p ")"%char [] X); reflexivity. Qed.
+
+Lemma ty_fails_at_rparen : forall f p X, interp g (12 + f) TY {| pk := p; rest := sp rparen X |} = Fail.
+Proof.
+  intros f p X. cbn [Nat.add]. unfold TY. rewrite i_or. cbn [alt_longest].
+  (* Type *)
+  rewrite (i_ref _ _ "Type" TYPE_BODY lookup_Type). unfold TYPE_BODY. rewrite i_and, seq_cons, i_and, seq_cons.
+  unfold CONST_OPT. rewrite i_opt, i_name. unfold rparen.
+  rewrite (kw_fail_first _ p "const" ")"%char [] X eq_refl eq_refl). rewrite seq_cons.
+  unfold CHOICE. rewrite i_first. cbn [alt_first]. rewrite i_name, (i_ref _ _ "BasicType" BASIC_BODY lookup_BasicType).
+  unfold BASIC_BODY. rewrite i_or. cbn [alt_longest].
+  rewrite !(kw_fail_first _ p _ ")"%char [] X eq_refl) by reflexivity.
+  rewrite i_name, (i_ref _ _ "CustomType" TN_BODY lookup_CustomType). unfold TN_BODY. rewrite i_and, seq_cons.
+  rewrite (ident_fails_at_rparen _ p X).
+  (* TemplatedType *)
+  rewrite (i_ref _ _ "TemplatedType" TT_BODY lookup_TemplatedType). unfold TT_BODY.
+  rewrite i_and, seq_cons, i_and, seq_cons, i_and, seq_cons. unfold CONST_OPT. rewrite i_opt, i_name.
+  rewrite (kw_fail_first _ p "const" ")"%char [] X eq_refl eq_refl). rewrite seq_cons.
+  rewrite i_name, (i_ref _ _ "Typename" TN_BODY lookup_Typename). unfold TN_BODY. rewrite i_and, seq_cons.
+  rewrite (ident_fails_at_rparen _ p X). reflexivity.
+Qed.
+
+Lemma args_empty_ok : forall f p X,
+  interp g (20 + f) (GRef "ArgumentList") {| pk := p; rest := sp rparen X |}
+  = Match [([], args_value [])] {| pk := p; rest := sp rparen X |}.
+Proof.
+  intros f p X. cbn [Nat.add].
+  rewrite (i_ref _ _ "ArgumentList" ARGS_BODY lookup_ArgumentList). unfold ARGS_BODY. rewrite i_opt, i_name, i_and, seq_cons.
+  rewrite (i_ref _ _ "Argument" ARG_BODY lookup_Argument). unfold ARG_BODY. rewrite i_and, seq_cons, i_and, seq_cons, i_name.
+  pose proof (ty_fails_at_rparen f p X) as E. cbn [Nat.add] in E. rewrite E. reflexivity.
+Qed.
+
+(* ---- C01 for argument lists ---- *)
+Definition wf_arg (a : ty * string) : Prop := wf_ty (fst a) /\ depth (fst a) < depth_fuel /\ is_ident (chars_of (snd a)) = true.
+Definition one_arg_toks (a : ty * string) : list chars := ty_toks (fst a) ++ [chars_of (snd a)].
+Definition one_arg_value (a : ty * string) : value := arg_value (ty_value (fst a)) (chars_of (snd a)).
+Definition args_toks (args : list (ty * string)) : list chars := sep_args (map one_arg_toks args).
+Definition mk_arg (a : ty * string) : arg := {| a_ty := fst a; a_name := snd a; a_default := None |}.
+Definition args_fuel (args : list (ty * string)) : nat :=
+  20 + length args + fold_right (fun a acc => 5 + fuel_of (fst a) + acc) 0 args.
+
+Lemma arg_parses_mono : forall F1 F2 t v, arg_parses F1 t v -> F1 <= F2 -> arg_parses F2 t v.
+Proof. intros F1 F2 t v H HF f p r Hr Hf. apply H; [exact Hr | lia]. Qed.
+
+Lemma named_args : forall vs, named "args_list" (map (add_name "args_list") (param_items vs)) = vs.
+Proof. induction vs as [|v r IH]; [reflexivity|]. unfold named, param_items in *. cbn. f_equal. exact IH. Qed.
+
+Lemma b_arg_ok : forall a, wf_arg a -> b_arg (one_arg_value a) = Ok (mk_arg a).
+Proof.
+  intros [t n] [Hw [Hd Hn]]. cbn [fst snd] in *. unfold one_arg_value, arg_value, b_arg. cbn [fst snd].
+  change (first_named "ctype" [(["ctype"%string], ty_value t); (["name"%string], VStr (string_of (chars_of n)))]) with (Some (ty_value t)).
+  change (first_named "name" [(["ctype"%string], ty_value t); (["name"%string], VStr (string_of (chars_of n)))]) with (Some (VStr (string_of (chars_of n)))).
+  cbn iota. unfold b_type. rewrite (ty_rebuilt depth_fuel t Hd Hw). cbn [bind]. rewrite string_chars. reflexivity.
+Qed.
+
+Theorem arglist_roundtrip : forall args, Forall wf_arg args -> forall p X f, args_fuel args <= f ->
+  exists v p', interp g f (GRef "ArgumentList") {| pk := p; rest := render (args_toks args) (sp rparen X) |}
+               = Match [([], v)] {| pk := p'; rest := sp rparen X |}
+               /\ b_args v = Ok (map mk_arg args).
+Proof.
+  intros args Hw p X f Hf.
+  set (F0 := fold_right (fun a acc => 5 + fuel_of (fst a) + acc) 0 args).
+  assert (HP : Forall2 (arg_parses F0) (map one_arg_toks args) (map one_arg_value args)).
+  { assert (G : forall a, In a args -> arg_parses F0 (one_arg_toks a) (one_arg_value a)).
+    { intros [t n] Hin. rewrite Forall_forall in Hw. destruct (Hw _ Hin) as [Hwt [Hd Hn]]. cbn [fst snd] in *.
+      apply (arg_parses_mono (5 + fuel_of t)).
+      - apply arg_parses_of; [apply (ty_parses (S (depth t))); [apply Nat.lt_succ_diag_r | exact Hwt] | exact Hn].
+      - unfold F0. clear - Hin. induction args as [|b r IH]; [destruct Hin|]. cbn [fold_right]. destruct Hin as [E|Hin]; [subst b; cbn [fst]; lia | specialize (IH Hin); lia]. }
+    clearbody F0. clear - G. induction args as [|a r IH]; [constructor|]. cbn [map]. constructor; [apply G; left; reflexivity|].
+    apply IH. intros b Hb. apply G. right. exact Hb. }
+  assert (B : b_args (args_value (map one_arg_value args)) = Ok (map mk_arg args)).
+  { unfold b_args, args_value. rewrite named_args. apply mapM_ok. clear - Hw. induction Hw as [|a r Ha Hr IH]; [constructor|].
+    cbn [map]. constructor; [apply b_arg_ok; exact Ha | exact IH]. }
+  unfold args_fuel in Hf. fold F0 in Hf.
+  destruct args as [|a args].
+  - exists (args_value []), p. split; [|exact B]. cbn [args_toks map sep_args render fold_right].
+    assert (E : exists f', f = 20 + f') by (exists (f - 20); cbn [length] in Hf; lia). destruct E as [f' E]. subst f. apply args_empty_ok.
+  - cbn [map] in HP. inversion HP as [|? ? ? ? H1 H2]; subst.
+    assert (E : exists f', f = 8 + f' /\ F0 <= f' /\ length (map one_arg_toks args) <= f').
+    { exists (f - 8). rewrite map_length. cbn [length] in Hf. repeat split; lia. }
+    destruct E as [f' [E [HF Hn]]]. subst f.
+    destruct (args_nonempty_ok _ _ _ _ F0 H1 H2 f' p X HF Hn) as [p' E']. unfold args_toks. cbn [map].
+    eexists. exists p'. split; [exact E' | exact B].
+Qed.
